@@ -12,7 +12,9 @@ VAR_VALUES = [
     0, 1, 7, -3, 2 ** 40, 0.5, 2.0, "", "s", "é|x", True, False, (1, 2), (), [], [1, "a"], {}, {"k": 1, "j": [2]},
     collections.OrderedDict([("o", 1)]), pathlib.PurePosixPath("a/b"), [[1], {"z": 0.5}],
 ]
-LIT_VALUES = [0, 1, 2, 5, "", "x", "yy", True, False, None, 1.5, 0.0]
+# no booleans here: True/1 and False/0 are documented as the same argument value (bool = int), so a result
+# computed for f(0) is legitimately served for f(False) - visible when results are rendered as text
+LIT_VALUES = [0, 1, 2, 5, "", "x", "yy", None, 1.5, 0.0]
 PATH_SHAPES = ["/p{n}", "/dir/p{n}", "/dir/sub/p{n}", "/dir2/p{n}", "/dir/sub/deep/p{n}"]
 
 
